@@ -25,7 +25,7 @@ def compile_raw(exe, workdir, stem, text, timeout=120):
                        capture_output=True, env=dict(os.environ, RUST_BACKTRACE="0"), timeout=timeout)
     if p.returncode != 0 or not os.path.exists(out):
         raise RuntimeError((p.stdout + p.stderr)[-600:])
-    funcs = CFG.parse_raw_text(open(out, encoding="utf-8", errors="replace").read())
+    funcs = CFG.parse_raw_text(open(out, encoding="utf-8", errors="replace", newline="").read())
     os.remove(out)
     return funcs, stem + ".mmm"
 
@@ -58,6 +58,53 @@ def run_real(exe, workdir, stem, text, timeout=60, trace=None, full_stderr=False
     if lines and lines[-1] == "":
         lines.pop()
     return p.returncode, lines, (p.stderr if full_stderr else p.stderr[-400:])
+
+
+def run_pipelines(exe, workdir, stem, text, which=("run", "execute", "transpile"), timeout=60):
+    """the same source through the CLI's pipelines -> {pipeline: (exit status | None | "compile-fail", stdout BYTES, stderr tail)}
+       run       : mscript run x.ms -q                       (bytecode kept in memory)
+       execute   : mscript compile x.ms --quick ; mscript execute x.mmm          (binary bytecode file written and loaded)
+       transpile : mscript compile x.ms --output-format raw-text --quick ; x.mmm -> x.transpiled.mmm ; mscript transpile ; mscript execute x.mmm"""
+    env = dict(os.environ, RUST_BACKTRACE="0")
+    env.pop("MSCRIPT_VERIF_TRACE", None)
+    src, mmm, tr = (os.path.join(workdir, stem + e) for e in (".ms", ".mmm", ".transpiled.mmm"))
+    with open(src, "w") as f:
+        f.write(text)
+
+    def call(args):
+        try:
+            p = subprocess.run([exe] + args, cwd=workdir, capture_output=True, env=env, timeout=timeout)
+            return p.returncode, p.stdout, p.stderr.decode("utf-8", "replace")[-400:]
+        except subprocess.TimeoutExpired:
+            return None, b"<timeout>", ""
+
+    out = {}
+    for w in which:
+        for f in (mmm, tr):
+            if os.path.exists(f):
+                os.remove(f)
+        if w == "run":
+            out[w] = call(["run", stem + ".ms", "-q"])
+        elif w == "execute":
+            c = call(["compile", stem + ".ms", "--quick"])
+            out[w] = ("compile-fail", c[1], c[2]) if c[0] != 0 or not os.path.exists(mmm) else call(["execute", stem + ".mmm"])
+        elif w == "transpile":
+            c = call(["compile", stem + ".ms", "--output-format", "raw-text", "--quick"])
+            if c[0] != 0 or not os.path.exists(mmm):
+                out[w] = ("compile-fail", c[1], c[2])
+                continue
+            os.replace(mmm, tr)
+            c = call(["transpile", stem + ".transpiled.mmm"])
+            out[w] = ("transpile-fail", c[1], c[2]) if c[0] != 0 or not os.path.exists(mmm) else call(["execute", stem + ".mmm"])
+    for f in (mmm, tr):
+        if os.path.exists(f):
+            os.remove(f)
+    return out
+
+
+def pipelines_differ(a, b):
+    """same success / failure and the same stdout, byte for byte"""
+    return (a[0] == 0) != (b[0] == 0) or a[1] != b[1] or not isinstance(a[0], int) or not isinstance(b[0], int)
 
 
 def explore_impl(funcs, module_path, nin, assumptions, limits):
